@@ -254,8 +254,8 @@ def two_flushes(ctx):
 
 def run(ctx):
     import logging
-    logging.getLogger("deep").setLevel(logging.CRITICAL + 1)
-    logging.getLogger().setLevel(logging.CRITICAL + 1)
+    from ..lib.quiet import quiet_logging
+    quiet_logging()
     ctx.rule = ("histories of 2-12 operations on the real TaskHandler: submit a gated task (35% failing), finish one of the "
                 "running tasks, begin flush (own thread), submissions during / after flush; plus PushService batches of 1-20 "
                 "snapshots (convertible, unconvertible, failing to send) followed by flush and a late hand-over. "
